@@ -263,6 +263,12 @@ class FormulaManager(object):
         if not exponent.is_constant():
             raise PysmtValueError("The exponent of POW must be a constant.", exponent)
 
+        base_type = self.env.stc.get_type(base)
+        if not (base_type.is_int_type() or base_type.is_real_type()) or \
+           base_type != self.env.stc.get_type(exponent):
+            raise PysmtTypeError("Base and exponent of POW must be both INT "
+                                 "or both REAL")
+
         if base.is_constant():
             val = cast(Union[int, fractions.Fraction], base.constant_value()) ** cast(Union[int, fractions.Fraction], exponent.constant_value())
             return self.Real(val)
